@@ -54,7 +54,7 @@ def Implies(a, b):
 def If(c, a, b):
     if isinstance(c, bool):
         return a if c else b
-    a2, b2 = to_z3(a), to_z3(b)
+    a2, b2 = to_z3(as_real(a) if b is NAN else a), to_z3(as_real(b) if a is NAN else b)
     if a2.sort() != b2.sort():
         if a2.sort() == z3.IntSort() and b2.sort() == z3.RealSort():
             a2 = z3.ToReal(a2)
@@ -195,8 +195,19 @@ def divmod_int(ctx, a, b):
     else:
         if ctx.branch(b == 0, "div0"):
             raise exc("ZeroDivisionError")
+    # one quotient/remainder pair per (dividend, divisor) on a path: code and specification share it
+    memo = ctx.__dict__.setdefault("memo", {})
+    key = ("divmod", str(simp(to_z3(a))), str(simp(to_z3(b))))
+    if key in memo:
+        return memo[key]
     q = ctx.fresh_int("q")
     r = ctx.fresh_int("r")
+    # floor division / modulo are FUNCTIONS of their arguments: equal (dividend, divisor) give equal results
+    hist = memo.setdefault("divmod-history", [])
+    for (a2, b2, q2, r2) in hist[-8:]:
+        ctx.assume(z3.Implies(z3.And(to_z3(a) == a2, to_z3(b) == b2), z3.And(q == q2, r == r2)))
+    hist.append((to_z3(a), to_z3(b), q, r))
+    memo[key] = (q, r)
     ctx.assume(to_z3(a) == to_z3(b) * q + r)
     if is_sym(b):
         pos = ctx.branch(b > 0, "divisor>0")
@@ -218,7 +229,25 @@ def ceil_real(ctx, x):
         return x
     c = ctx.fresh_int("ceil")
     ctx.assume(z3.And(z3.ToReal(c) >= x, z3.ToReal(c) - 1 < x))
+    # ceil(a / b) for integer a, b > 0: also state the integer form  (c-1)*b < a <= c*b  (helps the nonlinear solvers)
+    try:
+        if z3.is_app(x) and x.decl().kind() == z3.Z3_OP_DIV:
+            num, den = x.children()
+            ni = _int_of_real(num)
+            di = _int_of_real(den)
+            if ni is not None and di is not None and ctx.entails(di > 0):
+                ctx.assume(z3.And(c * di >= ni, (c - 1) * di < ni))
+    except z3.Z3Exception:
+        pass
     return c
+
+
+def _int_of_real(t):
+    if z3.is_app(t) and t.decl().kind() == z3.Z3_OP_TO_REAL:
+        return t.children()[0]
+    if z3.is_rational_value(t) and t.denominator_as_long() == 1:
+        return z3.IntVal(t.numerator_as_long())
+    return None
 
 
 def floor_real(ctx, x):
